@@ -13,7 +13,8 @@ def issuedOf (l : Line) : Option _root_.C15.Issued :=
   if str l "obs" == "ok" then
     some { issuedTokenType := str l "o.issued", accessToken := str l "o.at", accessLive := bool l "o.atlive",
            refreshToken := bool l "o.rt", refreshLive := bool l "o.rtlive", subject := str l "o.sub", scopes := list l "o.scopes",
-           audience := list l "o.aud", policyAsked := bool l "o.seen", exchangeSubject := str l "o.xsub", actor := str l "o.actor" }
+           audience := list l "o.aud", policyAsked := bool l "o.seen", exchangeSubject := str l "o.xsub", actor := str l "o.actor",
+           selfContained := str l "o.form" == "jwt" || str l "o.form" == "id", tokenSubject := str l "o.jsub", tokenActor := str l "o.jact" }
   else none
 
 def monitorLine (l : Line) : Option String :=
@@ -34,7 +35,12 @@ def cls (l : Line) : String :=
 /-- what was observed: outcome, and for a success the declared type, whose tokens they are, on whose behalf, refresh token or not -/
 def showObs (l : Line) : String :=
   if str l "obs" == "ok" then
-    s!"ok:{short (str l "o.issued")}:sub={str l "o.sub"}:act={str l "o.actor"}:rt={if bool l "o.rt" then 1 else 0}"
+    let tok := match str l "o.form" with
+      | "jwt" => s!"jwt({str l "o.jsub"}|{str l "o.jact"}|{str l "o.src"})"
+      | "id" => s!"id({str l "o.jsub"}|{str l "o.jact"}|{str l "o.src"})"
+      | "" => "-"
+      | f => f
+    s!"ok:{short (str l "o.issued")}:sub={str l "o.sub"}:act={str l "o.actor"}:rt={if bool l "o.rt" then 1 else 0}:tok={tok}"
   else if str l "obs" == "panic" then "panic" else "err:" ++ str l "o.err"
 
 def stepMon (l : Line) : String :=
